@@ -2,11 +2,17 @@ CONSTANTS
   Dev_AdoptClientSecurity = FALSE
   Dev_IgnoreSigFailure = FALSE
   Dev_TokenKeyLimits = FALSE
+  Dev_StatusSkipsVerify = FALSE
+  Dev_CloseOnce = FALSE
+  Dev_RecycledConfig = FALSE
   Dev_AdvertiseExtra = FALSE
   Dev_DropPolicy = ""
   Dev_WrongTokenPolicy = FALSE
+  SresSet = {"good"}
+  MaxAttempts = 1
+  Histories = {"none", "secured"}
   ConfigSet = "all"
-  Scripted = TRUE
+  Scripted = FALSE
   Intents = {"endpoint", "raw"}
   DiagKeys = FALSE
   Emit = "none"
@@ -18,5 +24,8 @@ INVARIANT InvTokens
 INVARIANT InvProvenIdentity
 INVARIANT InvNoPanic
 INVARIANT InvBadSigOutcome
+INVARIANT InvNoSessionUnverified
+INVARIANT InvBadStatusOutcome
+INVARIANT InvCleanAfterFailure
 INVARIANT InvInterop
 CHECK_DEADLOCK FALSE
